@@ -313,6 +313,33 @@ def run(ctx):
                                 if w == fl["qual"] and how != "init":
                                     rebinds = True
                     ctx.check(rebinds, "R13.5", NS + "parser", op + "-rebinds-groups", "the user-provided %s does not write group::%s for the moved groups" % (op, fl["name"]), where)
+                    # ... for EVERY group: the write sits in a loop over the container that owns the group objects
+                    owners = [pf for pf in pc["fields"] if re.search(r"\bgroup\b(?!\s*\*)", (pf.get("type") or "").split("<", 1)[-1]) and "*" not in (pf.get("type") or "") and "map<" in (pf.get("type") or "")]
+                    if mf is not None and mf.has_cfg and rebinds:
+                        for fid in cg.reachable([mf.id]):
+                            f2 = prog.fn(fid)
+                            if f2 is None or not f2.has_cfg:
+                                continue
+                            for (w, base, n2, b2, i2, how) in cg.field_writes(f2):
+                                if w != fl["qual"] or how == "init":
+                                    continue
+                                ranges = []
+                                for h, body in cfg.loop_blocks(f2):
+                                    if b2 in body and f2.term(h).get("kind") == "range_for":
+                                        c = fmt(f2.term(h).get("cond"))
+                                        m = re.search(r"__begin(\d+)", c)
+                                        if m:
+                                            for b3, i3, e3 in f2.roots():
+                                                x3 = e3["expr"]
+                                                if x3.get("k") == "decl":
+                                                    for v3 in x3.get("vars", []):
+                                                        if v3["name"] == "__range" + m.group(1) and v3.get("init") is not None:
+                                                            ranges.append(fmt(ir.unwrap(v3["init"])))
+                                over_owner = any(r0 == pf["name"] for r0 in ranges for pf in owners)
+                                ctx.check(over_owner, "R13.5", f2, op + "-rebinds-every-group",
+                                          "the back-reference is rewritten in a loop over %s, not over the container that owns the groups (%s): a group that is not in that list - the default "
+                                          "group - keeps pointing at the moved-from parser, whose name check then answers for the wrong object"
+                                          % (ranges or "no container", [pf["name"] for pf in owners]), (f2, n2.get("ln")), why_ok="loop over %s" % ranges)
                     continue
                 ctx.bad("R13.5", NS + "parser", op + "-implicit",
                         "group::%s is a `%s` to the owning parser and parser's %s is compiler-generated: after `parser b = std::move(a)` the moved groups "
